@@ -373,8 +373,13 @@ def titan_size(a: int, b: int, n: int, uploads: bool) -> bool:
             size = size * 10 + (ord(ch) - 48)
         if size == 0:
             return V(len(up.calls) == 1 and up.calls[0].size == 0 and not spy.calls)
-        # waits for content: nothing dispatched, nothing refused
-        return V(len(up.calls) == 0 and t.closed == 0 and p.titan_request is not None and p.titan_request.size == size)
+        # waits for content: nothing dispatched, nothing refused; once exactly `size` bytes have arrived
+        # the upload handler sees the declared size
+        if len(up.calls) != 0 or t.closed != 0:
+            return V(False)
+        p.data_received(mk(Fill(size)))
+        loop.run_ready()
+        return V(len(up.calls) == 1 and up.calls[0].size == size and not spy.calls)
     # grey zone (undecided): whitespace-padded values, '+N', '-0'
     if v0.strip() != v0:
         return True
